@@ -46,6 +46,7 @@ type Proxy struct {
 	// HTTP/S3 backends do when they cannot learn the logical size cheaply.
 	ContainsSizeUnknown bool
 	PutFull             bool // simulate a full upload queue: drop uploads silently
+	Stream              func() io.Reader // if set, the next Get streams from this reader instead of the stored bytes
 	OpenReaders         atomic.Int64
 	wg                  sync.WaitGroup
 }
@@ -193,6 +194,9 @@ func (p *Proxy) Get(ctx context.Context, kind cache.EntryKind, hash string, size
 		}
 	case "garbage":
 		data = append([]byte("this is not what was stored"), data...)
+	}
+	if p.Stream != nil {
+		return io.NopCloser(p.Stream()), sz, nil
 	}
 	p.OpenReaders.Add(1)
 	return &faultReader{p: p, data: data, f: f, ctx: ctx}, sz, nil
